@@ -232,7 +232,7 @@ void Interpret::interp(ASTNode& n) {
                             assertions.push(tr);
                             notify_success();
                         } catch (ApiException const & e) {
-                            notify_formatted(true, e.what());
+                            notify_formatted(true, "%s", e.what());
                         }
                     }
                 } else {
@@ -376,11 +376,11 @@ void Interpret::interp(ASTNode& n) {
             }
         }
     } catch (ApiException const &e) {
-        notify_formatted(true, e.what());
+        notify_formatted(true, "%s", e.what());
     } catch (std::exception const & e) {
         // e.g. LANonLinearException, or std::logic_error for models of unsupported theories:
         // the command is rejected, the interpreter must not be terminated
-        notify_formatted(true, e.what());
+        notify_formatted(true, "%s", e.what());
     }
 }
 
@@ -1355,7 +1355,10 @@ void Interpret::getInterpolants(const ASTNode& n)
     if (!config.produce_inter())
         throw ApiException("Cannot interpolate");
 
-    assert(grouping.size() >= 2);
+    if (grouping.size() < 2) {
+        notify_formatted(true, "Invalid arguments of get-interpolants command");
+        return;
+    }
     std::vector<ipartitions_t> partitionings;
     ipartitions_t p = 0;
     // We assume that together the groupings cover all query, so we ignore the last argument, since that should contain all that was missing at that point
